@@ -4,13 +4,14 @@ CONSTANTS
   n2 = n2
   n3 = n3
   Nodes <- N3
-  NW = 3
-  WKeys <- KeysStr3
-  WKinds <- KindsStr3
-  WVia <- Via121
+  NW = 2
+  WKeys <- KeysStr2
+  WKinds <- KindsStr2
+  WVia <- Via12
   SnapCount = 1
   CatchUp = 0
   MaxCrashes = 3
   SnapshotRestoresStateMachine = FALSE
   SnapshotSerialisesAllTypes = TRUE
 INVARIANTS TypeOK Durability
+ACTION_CONSTRAINT PORSerial
